@@ -13,8 +13,17 @@ def cargo_test(filter_, env_extra, release=False, timeout=1500):
     if release: cmd.append('--release')
     cmd += [filter_, '--', '--nocapture', '--test-threads', '1']
     with overlay.Lock('replay.lock'):
-        r = subprocess.run(cmd, cwd=overlay.CRATE, env=env, stdout=subprocess.PIPE, stderr=subprocess.STDOUT, timeout=timeout)
-    return r.returncode, r.stdout.decode(errors='replace')
+        # own process group: on a timeout the test binary (a grandchild) is killed too, not only cargo
+        p = subprocess.Popen(cmd, cwd=overlay.CRATE, env=env, stdout=subprocess.PIPE, stderr=subprocess.STDOUT, start_new_session=True)
+        try:
+            out, _ = p.communicate(timeout=timeout)
+        except subprocess.TimeoutExpired:
+            import signal
+            try: os.killpg(p.pid, signal.SIGKILL)
+            except ProcessLookupError: pass
+            p.wait()
+            raise
+    return p.returncode, out.decode(errors='replace')
 
 
 def run(pid, rep, key=None):
